@@ -70,9 +70,10 @@ def run_translator():
     rc2, out2 = sh([PY, os.path.join(VERIF, "translator", "spec2coq.py")], 120)
     if rc2 != 0:
         raise MachineryError("spec2coq failed:\n" + out2)
-    if rc != 0:
+    if rc not in (0, 3):
         return False, out
     _gen_cache["json"] = json.load(open(jpath))
+    _gen_cache["failed_parts"] = re.findall(r"TRANSLATOR-PART-FAILED (\w+)", out)
     return True, out
 
 
@@ -406,6 +407,8 @@ def proof_stage(res, prop, extra_targets=()):
         if not ok:
             broken.append("translator: " + out.strip().splitlines()[-1] if out.strip() else "translator failed")
             res.notes["translator_log"] = out[-2000:]
+        if _gen_cache.get("failed_parts"):
+            res.notes["translator_parts_not_translated"] = [l for l in out.splitlines() if l.startswith("TRANSLATOR-PART-FAILED")]
         pf = "Props/%s.v" % prop
         names = theorems_in(pf)
         res.obligations = len(names)
